@@ -17,6 +17,8 @@ type local struct {
 
 var version = "dev"
 
+var secretLiteral = "a literal long enough to be obfuscated"
+
 func main() {
 	for _, line := range top.Report("alpha") {
 		fmt.Println(line)
@@ -25,7 +27,7 @@ func main() {
 	t := reflect.TypeOf(local{})
 	fmt.Println(t.Name(), t.NumField(), t.Field(0).Name, t.Field(1).Type.Name())
 	p := leaf.Plain{Alpha: "abc", Beta: 4}
-	fmt.Println(p.Sum(), version)
+	fmt.Println(p.Sum(), version, flavour, secretLiteral, mid1.Scramble(12))
 	if len(os.Args) > 1 {
 		fmt.Println("args:", os.Args[1:])
 	}
